@@ -35,5 +35,6 @@ int vh_ops_reader(int argc, char **argv);
 int vh_ops_tree(int argc, char **argv);
 int vh_ops_tool(int argc, char **argv);
 int vh_ops_danger(int argc, char **argv);
+int vh_ops_cli(int argc, char **argv);
 
 #endif
